@@ -1,5 +1,6 @@
 import JoblibProofs.Lemmas.ParallelProto
 import JoblibProofs.Lemmas.AutoBatch
+import JoblibProofs.Lemmas.ParallelSeq
 /-!
 # C01 — Parallel returns what the sequential loop returns, in order, each task once
 
@@ -187,5 +188,72 @@ example : (callList (⟨2, true, [1, 3, 2], 0, 3, 0, -1, false, true⟩ : Cfg) 1
 /-- Unordered mode, same configuration, another schedule: a rearrangement (batches in completion order). -/
 example : (callList (⟨2, true, [1, 3, 2], 0, 3, 2, -1, false, true⟩ : Cfg) 100 0 ⟨7, [], -1, []⟩
       ({ sched := [[1], [], [1, 0], [1]], failIds := [] } : St)).2 = .ret [0, 1, 4, 5, 2, 3, 6] := by decide
+
+
+/-! ### the sequential path (`n_jobs == 1`, `Parallel._get_sequential_output`, model `JoblibModel.ParallelSeq`) -/
+
+section Sequential
+open JoblibModel.ParallelSeq
+
+/-- SEQUENTIAL RETURN CORRECT. With `n_jobs == 1` a list-mode call on an idle object, none of whose tasks fails and
+whose input does not raise, returns exactly the sequential results `List.range' base n` — for every schedule (the
+hook points only consume schedule entries), every `batch_size` (the re-batching uses `max bs 1`), every leftover of
+earlier calls. Fuel: `n + 2`. The object is idle afterwards and all `n` tasks have been executed. -/
+theorem sequential_return_correct (c : Cfg) {fuel base : Nat} {spec : CallSpec} {s₀ : St} (hi : Idle s₀)
+    (hfail : ∀ id ∈ s₀.failIds, ¬ (base ≤ id ∧ id < base + spec.n)) (hiter : spec.iterfail = -1)
+    (hfuel : spec.n + 2 ≤ fuel) :
+    ∃ s', seqCallList c fuel base spec s₀ = (s', .ret (List.range' base spec.n)) ∧ Idle s' ∧
+      s'.nCompleted = spec.n ∧ s'.exception = false ∧ s'.hung = s₀.hung := by
+  have h := seqCallList_spec c (base := base) (spec := spec) hi hfuel
+  generalize seqCallList c fuel base spec s₀ = r at h
+  obtain ⟨s', o⟩ := r
+  cases o with
+  | ret v =>
+    obtain ⟨a1, a2, a3, a4, a5, _⟩ := h
+    exact ⟨s', by rw [a1], a2, a3, a4, a5⟩
+  | raised e =>
+    obtain ⟨_, _, _, _, _, _, a7⟩ := h
+    rcases a7 with ⟨_, b2, b3, _⟩ | ⟨pos, _, b2, _⟩
+    · exact absurd ⟨Nat.le_add_right _ _, by omega⟩ (hfail _ b2)
+    · omega
+  | hung => exact h.elim
+
+/-- SEQUENTIAL EXACTLY ONCE. Every `next()` on a live sequential generator executes exactly the next id in order
+(`base + nCompleted`) and counts it; when a list-mode call returns, `nCompleted = n`, the returned list is the ids in
+order and has no duplicates: each task was executed exactly once. -/
+theorem sequential_exactly_once (c : Cfg) :
+    (∀ (fuel : Nat) (s : St) (g : SGen), SInv s g → ∀ s' g' v, seqNext (fuel + 2) s g = (s', g', .value v) →
+      v = s.base + s.nCompleted ∧ s'.nCompleted = s.nCompleted + 1 ∧ SInv s' g') ∧
+    (∀ (fuel base : Nat) (spec : CallSpec) (s₀ s' : St) (v : List Nat), Idle s₀ → spec.n + 2 ≤ fuel →
+      seqCallList c fuel base spec s₀ = (s', .ret v) →
+      v = List.range' base spec.n ∧ v.Nodup ∧ s'.nCompleted = spec.n) := by
+  constructor
+  · intro fuel s g h s' g' v he
+    have := seqNext_spec fuel h
+    rw [he] at this
+    exact ⟨this.1, this.2.2.2.1, this.2.2.1⟩
+  · intro fuel base spec s₀ s' v hi hf he
+    have := seqCallList_spec c (base := base) (spec := spec) hi hf
+    rw [he] at this
+    exact ⟨this.1, by rw [this.1]; exact List.nodup_range' (step := 1) (by omega), this.2.2.1⟩
+
+/-- SEQUENTIAL LEAVES IDLE. However a sequential call on an idle object ends (return or raise, whatever fails), the
+object is idle afterwards (`_running = False`, …): sequential and parallel calls compose in any order. -/
+theorem sequential_leaves_idle (c : Cfg) {fuel base : Nat} {spec : CallSpec} {s₀ : St} (hi : Idle s₀)
+    (hfuel : spec.n + 2 ≤ fuel) :
+    Idle (seqCallList c fuel base spec s₀).1 ∧ (seqCallList c fuel base spec s₀).1.running = false ∧
+    (seqCallList c fuel base spec s₀).2 ≠ .hung := by
+  have h := seqCallList_spec c (base := base) (spec := spec) hi hfuel
+  generalize seqCallList c fuel base spec s₀ = r at h
+  obtain ⟨s', o⟩ := r
+  cases o with
+  | ret v => exact ⟨h.2.1, h.2.1.running, by simp⟩
+  | raised e => exact ⟨h.1, h.1.running, by simp⟩
+  | hung => exact h.elim
+
+example : (seqCallList (⟨1, true, [3, 2], 0, 2, 0, -1, false, true⟩ : Cfg) 20 5 ⟨7, [], -1, []⟩
+    ({ sched := [[0], [1]], failIds := [2] } : St)).2 = .ret [5, 6, 7, 8, 9, 10, 11] := by decide
+
+end Sequential
 
 end C01
